@@ -35,11 +35,13 @@ inductive Reach (gs : List Obj) : Name → Name → Prop where
   | refl {a} : isFn gs a = true → Reach gs a a
   | step {a b c} : Reach gs a b → c ∈ refsOf gs b → isFn gs c = true → Reach gs a c
 
+omit [Rules] in
 theorem Reach.isFn_right {gs : List Obj} {a b : Name} (h : Reach gs a b) : isFn gs b = true := by
   cases h with
   | refl h => exact h
   | step _ _ h => exact h
 
+omit [Rules] in
 theorem Reach.trans {gs : List Obj} {a b c : Name} (h1 : Reach gs a b) (h2 : Reach gs b c) : Reach gs a c := by
   induction h2 with
   | refl _ => exact h1
@@ -49,8 +51,10 @@ theorem Reach.trans {gs : List Obj} {a b c : Name} (h1 : Reach gs a b) (h2 : Rea
 
 def fnPred (f : Name) : Obj → Bool := fun o => o.isFunction && o.sym == .named f
 
+omit [Rules] in
 theorem findFunc_eq (gs : List Obj) (f : Name) : findFunc gs f = gs.find? (fnPred f) := rfl
 
+omit [Rules] in
 theorem fnPred_ne {f g : Name} {o : Obj} (h : g ≠ f) (hf : fnPred f o = true) : fnPred g o = false := by
   unfold fnPred at *
   cases hfun : o.isFunction
@@ -62,10 +66,12 @@ theorem fnPred_ne {f g : Name} {o : Obj} (h : g ≠ f) (hf : fnPred f o = true) 
 /-- an update that keeps an object a function with the same name -/
 def KeepsId (u : Obj → Obj) : Prop := ∀ o, (u o).isFunction = o.isFunction ∧ (u o).sym = o.sym
 
+omit [Rules] in
 theorem fnPred_keeps {u : Obj → Obj} (hu : KeepsId u) (g : Name) (o : Obj) : fnPred g (u o) = fnPred g o := by
   unfold fnPred
   rw [(hu o).1, (hu o).2]
 
+omit [Rules] in
 theorem find_updFirst_fnPred {u : Obj → Obj} (hu : KeepsId u) (gs : List Obj) (f g : Name) :
     (updFirst (fnPred f) u gs).find? (fnPred g) =
       if g = f then (gs.find? (fnPred f)).map u else gs.find? (fnPred g) := by
@@ -92,10 +98,12 @@ theorem find_updFirst_fnPred {u : Obj → Obj} (hu : KeepsId u) (gs : List Obj) 
         · simpa using ih
         · simp
 
+omit [Rules] in
 theorem findFunc_updFunc {u : Obj → Obj} (hu : KeepsId u) (gs : List Obj) (f g : Name) :
     findFunc (updFunc gs f u) g = if g = f then (findFunc gs f).map u else findFunc gs g :=
   find_updFirst_fnPred hu gs f g
 
+omit [Rules] in
 theorem length_updFirst (p : Obj → Bool) (u : Obj → Obj) (gs : List Obj) : (updFirst p u gs).length = gs.length := by
   induction gs with
   | nil => rfl
@@ -103,11 +111,14 @@ theorem length_updFirst (p : Obj → Bool) (u : Obj → Obj) (gs : List Obj) : (
     unfold updFirst
     split <;> simp [ih]
 
+omit [Rules] in
 theorem length_setLive (gs : List Obj) (f : Name) : (setLive gs f).length = gs.length :=
   length_updFirst _ _ _
 
+omit [Rules] in
 theorem keepsId_setLive : KeepsId (fun o => { o with isLive := true }) := fun _ => ⟨rfl, rfl⟩
 
+omit [Rules] in
 theorem isFn_setLive (gs : List Obj) (f g : Name) : isFn (setLive gs f) g = isFn gs g := by
   unfold isFn setLive
   rw [findFunc_updFunc keepsId_setLive]
@@ -115,6 +126,7 @@ theorem isFn_setLive (gs : List Obj) (f g : Name) : isFn (setLive gs f) g = isFn
   · subst h; simp
   · simp [h]
 
+omit [Rules] in
 theorem refsOf_setLive (gs : List Obj) (f g : Name) : refsOf (setLive gs f) g = refsOf gs g := by
   unfold refsOf setLive
   rw [findFunc_updFunc keepsId_setLive]
@@ -123,6 +135,7 @@ theorem refsOf_setLive (gs : List Obj) (f g : Name) : refsOf (setLive gs f) g = 
     cases findFunc gs g <;> simp
   · simp [h]
 
+omit [Rules] in
 theorem liveFn_setLive (gs : List Obj) (f g : Name) :
     liveFn (setLive gs f) g = ((decide (g = f) && isFn gs f) || liveFn gs g) := by
   unfold liveFn setLive isFn
@@ -132,6 +145,7 @@ theorem liveFn_setLive (gs : List Obj) (f g : Name) :
     cases findFunc gs g <;> simp
   · simp [h]
 
+omit [Rules] in
 /-- marking a function that was not live strictly decreases the number of unmarked functions -/
 theorem unmarked_setLive (gs : List Obj) (f : Name) (o : Obj) (hf : findFunc gs f = some o) (hl : o.isLive = false) :
     unmarked (setLive gs f) + 1 = unmarked gs := by
@@ -167,10 +181,12 @@ inductive LiveUpd : List Obj → List Obj → Prop where
   | cons {o o' : Obj} {os os' : List Obj} : (o' = o ∨ o' = { o with isLive := true }) → LiveUpd os os' →
       LiveUpd (o :: os) (o' :: os')
 
+omit [Rules] in
 theorem LiveUpd.rfl' : ∀ (gs : List Obj), LiveUpd gs gs
   | [] => .nil
   | _ :: os => .cons (Or.inl rfl) (LiveUpd.rfl' os)
 
+omit [Rules] in
 theorem LiveUpd.trans : ∀ {a b c : List Obj}, LiveUpd a b → LiveUpd b c → LiveUpd a c := by
   intro a b c h1
   induction h1 generalizing c with
@@ -182,6 +198,7 @@ theorem LiveUpd.trans : ∀ {a b c : List Obj}, LiveUpd a b → LiveUpd b c → 
       refine .cons ?_ (ih hs')
       rcases h with rfl | rfl <;> rcases h' with rfl | rfl <;> simp
 
+omit [Rules] in
 theorem liveUpd_setLive (gs : List Obj) (f : Name) : LiveUpd gs (setLive gs f) := by
   unfold setLive updFunc
   induction gs with
@@ -192,6 +209,7 @@ theorem liveUpd_setLive (gs : List Obj) (f : Name) : LiveUpd gs (setLive gs f) :
     · exact .cons (Or.inr rfl) (LiveUpd.rfl' os)
     · exact .cons (Or.inl rfl) ih
 
+omit [Rules] in
 theorem LiveUpd.mem {gs gs' : List Obj} (h : LiveUpd gs gs') {o' : Obj} (ho : o' ∈ gs') :
     ∃ o, o ∈ gs ∧ (o' = o ∨ o' = { o with isLive := true }) := by
   induction h with
@@ -210,12 +228,15 @@ structure Ext (gs gs' : List Obj) : Prop where
   unm : unmarked gs' ≤ unmarked gs
   len : gs'.length = gs.length
 
+omit [Rules] in
 theorem Ext.rfl' (gs : List Obj) : Ext gs gs := ⟨LiveUpd.rfl' gs, fun _ => rfl, fun _ => rfl, fun _ h => h, Nat.le_refl _, rfl⟩
 
+omit [Rules] in
 theorem Ext.trans {a b c : List Obj} (h1 : Ext a b) (h2 : Ext b c) : Ext a c :=
   ⟨h1.upd.trans h2.upd, fun g => (h2.isFn g).trans (h1.isFn g), fun g => (h2.refs g).trans (h1.refs g),
    fun g h => h2.mono g (h1.mono g h), Nat.le_trans h2.unm h1.unm, h2.len.trans h1.len⟩
 
+omit [Rules] in
 theorem Reach.ext {a b : List Obj} (h : Ext a b) {x y : Name} : Reach a x y ↔ Reach b x y := by
   constructor
   · intro r
@@ -231,6 +252,7 @@ theorem Reach.ext {a b : List Obj} (h : Ext a b) {x y : Name} : Reach a x y ↔ 
 def ClosedExcept (gs : List Obj) (S : Name → Prop) : Prop :=
   ∀ x, liveFn gs x = true → ¬ S x → ∀ y, y ∈ refsOf gs x → isFn gs y = true → liveFn gs y = true
 
+omit [Rules] in
 theorem liveFn_isFn {gs : List Obj} {f : Name} (h : liveFn gs f = true) : isFn gs f = true := by
   unfold liveFn at h
   unfold isFn
@@ -238,6 +260,7 @@ theorem liveFn_isFn {gs : List Obj} {f : Name} (h : liveFn gs f = true) : isFn g
   · simp [hf] at h
   · rfl
 
+omit [Rules] in
 /-- the specification of one `mark_live` call, for every graph and every fuel that covers the functions that
     are still unmarked -/
 theorem markLive_spec : ∀ (n : Nat) (gs : List Obj) (f : Name) (S : Name → Prop),
@@ -368,8 +391,10 @@ theorem markLive_spec : ∀ (n : Nat) (gs : List Obj) (f : Name) (S : Name → P
 
 /-! ### the root loop of `parse` -/
 
+omit [Rules] in
 theorem unmarked_le_length (gs : List Obj) : unmarked gs ≤ gs.length := List.length_filter_le _ _
 
+omit [Rules] in
 theorem reach_start_isFn {gs : List Obj} {a b : Name} (h : Reach gs a b) : isFn gs a = true := by
   induction h with
   | refl hf => exact hf
@@ -378,18 +403,21 @@ theorem reach_start_isFn {gs : List Obj} {a b : Name} (h : Reach gs a b) : isFn 
 /-- no `is_live` flag is set (the state `parse` is in before the root loop) -/
 def NoneLive (gs : List Obj) : Prop := ∀ o, o ∈ gs → o.isLive = false
 
+omit [Rules] in
 theorem liveFn_of_noneLive {gs : List Obj} (h : NoneLive gs) (f : Name) : liveFn gs f = false := by
   unfold liveFn
   cases hf : findFunc gs f with
   | none => rfl
   | some o => exact h o (List.mem_of_find?_eq_some hf)
 
+omit [Rules] in
 theorem closed_of_reach {gs : List Obj} (hc : ClosedExcept gs (fun _ => False)) {r x : Name}
     (hr : liveFn gs r = true) (h : Reach gs r x) : liveFn gs x = true := by
   induction h with
   | refl _ => exact hr
   | step _ hm hf ih => exact hc _ ih (fun h => h) _ hm hf
 
+omit [Rules] in
 theorem markRoots_loop (gs : List Obj) : ∀ (l : List Name) (g : List Obj), Ext gs g → ClosedExcept g (fun _ => False) →
     ∃ g', l.foldlM (fun gs r => markLive gs.length gs r) g = some g' ∧ Ext g g' ∧
       (∀ r, r ∈ l → isFn gs r = true → liveFn g' r = true) ∧ ClosedExcept g' (fun _ => False) ∧
